@@ -15,6 +15,7 @@ MCNext ==
   \/ \E vs \in VertexLists : \E e \in EdgeChoices : UniqueIds(vs) /\ Construct(vs, <<e>>)
   \/ \E q \in {"calc_chi2", "edge_jacobians", "to_g2o"} : Query(q)
   \/ \E i \in 1..MaxV : \E b \in BOOLEAN : SetFixed(i, b)
+  \/ \E ff \in BOOLEAN : \E np \in [DOMAIN verts -> Tokens] : OptAbort(ff, np)
   \/ DoSetPose
   \/ DoSetMeas
   \/ \E r \in BOOLEAN, keep \in BOOLEAN : \E np \in [DOMAIN verts -> Tokens] : Reload(r, keep, np, [n \in DOMAIN edges |-> 0])
@@ -29,5 +30,5 @@ MutantSpec == Init /\ [][MCNext \/ \E np \in [DOMAIN verts -> Tokens] : BadOptCa
 ReportShape == obs.op = "OptCall" => /\ obs.rep.numIter >= 1 /\ obs.rep.lenResults \in {obs.rep.numIter, obs.rep.numIter + 1}
                                      /\ (obs.rep.lenResults = obs.rep.numIter + 1 => obs.rep.converged /\ ~obs.rep.lastComplete)
 \* the first vertex is fixed after any call with fix_first_pose; a fixed vertex stays fixed across optimizer calls
-FirstFixedAfterOpt == [][obs'.op = "OptCall" /\ status = "ready" => \A i \in DOMAIN verts : verts[i].fixed => verts'[i].fixed]_vars
+FirstFixedAfterOpt == [][obs'.op \in {"OptCall", "OptAbort"} /\ status = "ready" => \A i \in DOMAIN verts : verts[i].fixed => verts'[i].fixed]_vars
 =============================================================================
